@@ -432,7 +432,73 @@ func c11Exec(op string, repeats int) (string, *Violation) {
 	if v := c.timeTravel(first); v != nil {
 		return first.rendered, v
 	}
+	if v := c.refilter(first); v != nil {
+		return first.rendered, v
+	}
 	return first.rendered, nil
+}
+
+// refilter: the documented use of ChildFilter - parents that are already annotated are annotated again with a
+// filter naming the children that changed. Here nothing changed, so annotating the annotated parents again with a
+// filter that selects one child must leave every update list as it was (C11: with child filters the update list is
+// still the list of all later child versions).
+func (c *c11Case) refilter(first c11Out) *Violation {
+	if c.fmod != 0 || len(c.ps) == 0 || len(c.ps[0].refs) == 0 {
+		return nil
+	}
+	pick := c.ps[0].refs[0].fid
+	ctx := context.Background()
+	ds := c.datasource()
+	render := func(us osm.Updates) string {
+		var b strings.Builder
+		for _, u := range us {
+			fmt.Fprintf(&b, " %d:%d:%d", u.Index, u.Version, u.Timestamp.Unix())
+		}
+		return b.String()
+	}
+	opts := append(c.options(), annotate.ChildFilter(func(fid osm.FeatureID) bool {
+		if c.kind == "way" {
+			return fid.Ref() == pick
+		}
+		if pick%2 == 1 {
+			return fid.Type() == osm.TypeRelation && fid.Ref() == pick/2
+		}
+		return fid.Type() == osm.TypeNode && fid.Ref() == pick/2
+	}))
+	if c.kind == "way" {
+		var ways osm.Ways
+		for _, w := range first.ways {
+			cp := *w
+			cp.Nodes = append(osm.WayNodes{}, w.Nodes...)
+			cp.Updates = append(osm.Updates{}, w.Updates...)
+			ways = append(ways, &cp)
+		}
+		if err := annotate.Ways(ctx, ways, ds, opts...); err != nil {
+			return nil // errors under a filter: nothing claimed here
+		}
+		for i := range ways {
+			if a, b := render(first.ways[i].Updates), render(ways[i].Updates); a != b {
+				return &Violation{Signature: "filter-drops-other-updates", Text: fmt.Sprintf("parent version %d: annotated again with a ChildFilter selecting child %d only (no history changed), its updates went from [%s ] to [%s ]", i+1, pick, a, b)}
+			}
+		}
+		return nil
+	}
+	var rels osm.Relations
+	for _, r := range first.rels {
+		cp := *r
+		cp.Members = append(osm.Members{}, r.Members...)
+		cp.Updates = append(osm.Updates{}, r.Updates...)
+		rels = append(rels, &cp)
+	}
+	if err := annotate.Relations(ctx, rels, ds, opts...); err != nil {
+		return nil
+	}
+	for i := range rels {
+		if a, b := render(first.rels[i].Updates), render(rels[i].Updates); a != b {
+			return &Violation{Signature: "filter-drops-other-updates", Text: fmt.Sprintf("parent version %d: annotated again with a ChildFilter selecting child %d only (no history changed), its updates went from [%s ] to [%s ]", i+1, pick, a, b)}
+		}
+	}
+	return nil
 }
 
 // c11SameUpToTieOrder: the two renderings differ only in the order of updates that share index and timestamp.
